@@ -274,8 +274,16 @@ impl Driver {
                 rec.no,
                 rec.t,
                 match &rec.kind {
-                    ArmKind::Client { inj } => format!("client inj#{inj}"),
-                    ArmKind::Uplink { conn_id, what, bytes } => format!("uplink {what} ({} B) on {:x}", bytes.len(), conn_id),
+                    ArmKind::Client { inj } => format!("client inj#{inj} seq {:?} retransmit {}", self.inj.get(*inj).and_then(|d| d.seq), self.inj.get(*inj).is_some_and(|d| crate::refcodec::is_retransmit(&d.bytes))),
+                    ArmKind::Uplink { conn_id, what, bytes } => {
+                        let nums: Vec<u32> = match crate::refcodec::ptype(bytes) {
+                            Some(0x8003) => crate::refcodec::srt_nak(bytes).into_iter().take(8).collect(),
+                            Some(0x9100) => crate::refcodec::srtla_ack(bytes).into_iter().take(12).collect(),
+                            Some(0x8002) => crate::refcodec::srt_ack(bytes).into_iter().collect(),
+                            _ => Vec::new(),
+                        };
+                        format!("uplink {what} ({} B) on {:x} numbers {nums:?}", bytes.len(), conn_id)
+                    }
                     ArmKind::Flush => "flush".into(),
                     ArmKind::Housekeeping { ok } => format!("housekeeping ok={ok}"),
                 },
